@@ -1119,6 +1119,7 @@ static void mulQ(double *q, const double *r)
     q[3] = w;
 }
 
+static bool g_ulpHigh = false;
 // angular slots use `am`, linear slots `lm`; delta is the offset from the seam / bound for LOW, HIGH
 static void gen(const Node &nd, ob::State *s, vt::Rng &r, Mode am, Mode lm, double delta, bool angularOnly = false)
 {
@@ -1170,6 +1171,16 @@ static void gen(const Node &nd, ob::State *s, vt::Rng &r, Mode am, Mode lm, doub
                     break;
                 case HIGH:
                     v = PI - std::max(delta, 1e-12);
+                    // the last doubles below the seam: a blend that is in range mathematically can ROUND onto +pi
+                    // (only in the seam-ulp probe, whose other state is far from the seam: two states a few ulps
+                    // apart across the seam have distances that round to 0 in the embedded spaces - rounding, not
+                    // a broken positivity law)
+                    if (g_ulpHigh)
+                    {
+                        v = std::nextafter(PI, 0.0);
+                        if (r.below(3) == 0)
+                            v = std::nextafter(v, 0.0);
+                    }
                     break;
                 case MID:
                     v = 0;
@@ -1687,6 +1698,14 @@ static void canned(const std::string &name, const Node &nd, bool interp, std::ve
         sl.u = 64;
         v.push_back(sl);
     }
+    if (name == "SO2" || name == "WrapperSO2")
+    {
+        // no wrap needed (|to - from| <= pi), yet from + (to - from) * 1 rounds onto +pi when `to` is the last double
+        // below the seam (a tie in the last bit, about 4 % of a regular grid of `from` values)
+        const double top = std::nextafter(PI, 0.0);
+        for (double from : {0.94247779607693771, 0.3 * PI, 1e-6 * PI * 271828, 0.5, 1.0})
+            v.push_back({"canned-ulp", fixed({from}, {top}, {0.0}), true});
+    }
     if (!interp)
     {
         if (name == "Mobius" || name == "WrapperMobius")
@@ -1788,6 +1807,17 @@ static std::vector<Probe> probes(const Node &nd, vt::Rng &r, bool interp)
                      gen(nd, a, r, LOW, anyOf(), dl());
                      gen(nd, b, r, HIGH, anyOf(), dl());
                      third(c);
+                 }});
+    v.push_back({"seam-ulp", [&nd, &r, third, anyOf](ob::State *a, ob::State *b, ob::State *c) {
+                     // any angle against the last doubles below +pi (HIGH with delta 0 picks them one time in three):
+                     // no wrap is needed, but the blend can round onto +pi itself
+                     gen(nd, a, r, RANDOM, anyOf(), 0);
+                     g_ulpHigh = true;
+                     gen(nd, b, r, HIGH, anyOf(), 0);
+                     g_ulpHigh = false;
+                     if (r.below(4) == 0)
+                         std::swap(a, b);
+                     gen(nd, c, r, RANDOM, RANDOM, 0);
                  }});
     v.push_back({"antipodal", [&nd, &r, third, anyOf](ob::State *a, ob::State *b, ob::State *c) {
                      gen(nd, a, r, anyOf(), RANDOM, 0);
